@@ -2,13 +2,13 @@
 from vlib.core import Case
 
 ID = "C04"
-COMPONENTS = ["inflow", "s_inflowconn"]
+COMPONENTS = ["inflow", "s_inflowconn", "s_inflowsrv"]
 T4 = ["InFlow"]
 PROOF_MODULES = ["GrpcProofs.Properties.C04"]
 THEOREMS = ["GrpcProofs.C04." + t for t in (
     "ledger_exact", "accepts_conforming_peer", "rejects_only_excess", "advertised_le_max_partial",
     "advertised_bound_counterexample", "no_wedge", "big_read_granted", "monitor_accepts_model",
-    "conn_ledger", "conn_window", "conn_streams_exact", "conn_accepts_iff_fits", "new_stream_window")]
+    "conn_ledger", "conn_window", "conn_streams_exact", "conn_accepts_iff_fits", "new_stream_window", "conn_no_wedge")]
 DESIGN_REF = "DESIGN.md section 8, C04 (+ the two C04 readings in section 7)"
 TECHNIQUE = ("Lean 4 theorems (invariant induction over legal histories of the ported uint32 bookkeeping with the peer-side window as "
              "ghost state; omega over wrap-around arithmetic; lifted to a connection with stream registration interleaved with BDP "
@@ -29,11 +29,14 @@ LEVEL_NOTE = ("Trusted: Lean kernel; the hand model lean/GrpcModel/Model/InFlow.
               "fields are predicted and compared after each quiescent step; which queued NewStream registers, whether a BDP ping "
               "goes out and the window the float BDP estimator picks are taken from the implementation (no clock/scheduler in "
               "the model), and the monitor judges the frames alone (no FLOW_CONTROL reset of a peer inside its windows, excess "
-              "reset, windows <= 2^31-1). The server transport's registration path is not driven. Readings (DESIGN 7): 'restored to "
+              "reset, windows <= 2^31-1, and once everything delivered on a stream has been read - its reader is blocked or the "
+              "completed reads add up to the payload sent - the window the peer holds is restored to within a strict quarter of "
+              "the advertised one: conn_no_wedge). The same model, prediction and monitor are run against a real http2Server "
+              "transport with a scripted raw client (s_inflowsrv). Readings (DESIGN 7): 'restored to "
               "at least the configured window' = adv + pendingUpdate = limit + delta with pendingUpdate < limit/4 once all delivered "
               "data is read (literal adv >= limit is false by design of the quarter-window batching); the 2^31-1 bound carries the "
               "side condition 'no BDP update while limit+delta would exceed it', the excluded point is run and reported as F20.")
-GAP = "BDP estimator RTT arithmetic (only its output n matters); T2 drives the client transport only (http2_server operateHeaders/updateFlowControl have the same shape and are covered by the model, not by a run); schedules inside one quiescent step are the Go runtime's"
+GAP = "BDP estimator RTT arithmetic (only its output n matters); schedules inside one quiescent step are the Go runtime's; the net/http based handler_server transport keeps no flow-control bookkeeping of its own"
 ASSUMPTIONS = ["callers' protocol as in Ghost.legal: one reader per stream; Stream.read/ReadMessageHeader call requestRead(n) then read exactly n bytes; initial limit <= 2^31-1",
                "DATA frame flow-controlled length < 2^24 (HTTP/2 frame length field)", "BDP updates n satisfy limit <= n <= bdpLimit (bdp_estimator.go)"]
 RULE = ("protocol cases (peer mostly conforming, one overshoot; padded frames; header+body reads, bodies up to 2^32-1; BDP "
@@ -42,7 +45,9 @@ RULE = ("protocol cases (peer mostly conforming, one overshoot; padded frames; h
         "update or a rejection occurred; distinct = distinct op list. T2 (s_inflowconn): queued-stream cases (NewStream queued on "
         "MAX_CONCURRENT_STREAMS 1..3 before/after one or two BDP rounds, then the peer fills the window advertised for the newly "
         "registered stream with a slow/absent reader, padded frames, optional one-byte overshoot) and random walks over several "
-        "streams (frames within the windows, reads of all sizes incl. blocking and > window, BDP rounds, stream ends).")
+        "streams (frames within the windows, reads of all sizes incl. blocking and > window, BDP rounds, stream ends). T2 server "
+        "side (s_inflowsrv): the same walks against a real http2Server; on both sides padding cases: bursts of 70-300 PADDED DATA "
+        "frames with an empty or 1-5 byte data section (one or more stream windows of pure padding), with a blocked/slow reader.")
 
 MAXW = 2**31 - 1
 W = 2**32
@@ -500,11 +505,62 @@ def queued_case(rng, idx):
     return Case("s_inflowconn", ops, "queued-%d-k%d" % (idx, k))
 
 
-def conn_walk_case(rng, idx):
+def padding_case(rng, idx, comp):
+    """the class 'frames that carry little or no payload': bursts of PADDED DATA frames whose data section is
+    empty or tiny (the whole frame length is flow-controlled and must come back at once), adding up to one or
+    more stream windows, mixed with ordinary frames, a blocked or slow reader and BDP rounds"""
+    r = rng
+    sim = ConnSim(100)
+    ops = ["conn 100"]
+    nw = r.choice([1, 1, 2])
+    for w in range(1, nw + 1):
+        ops.append("new %d" % w)
+        sim.new(w)
+    if r.random() < 0.5:
+        w = r.randrange(1, nw + 1)
+        n = r.choice([5, 1000, 100000])
+        ops.append("read %d %d" % (w, n))       # the application is blocked in Read
+        sim.read(w, n)
+    target = r.choice([70, 90, 150, 300])
+    style = r.choice(["only", "only", "tiny", "mixed"])
+    for i in range(target):
+        live = [w for w in sim.st if sim.alive(w)]
+        if not live:
+            break
+        w = r.choice(live)
+        room = min(sim.st[w]["pwin"], sim.pconn)
+        if room < 300:
+            break
+        x = r.random()
+        if style == "only" or (style == "mixed" and x < 0.6):
+            fr = (0, r.choice([255, 255, 254, 0, 1, 100]))
+        elif style == "tiny" or x < 0.8:
+            fr = (r.choice([1, 1, 2, 5]), r.choice([255, 250, 0, 10]))
+        else:
+            fr = (r.choice([1, 100, 16384 if room >= 16384 else 1]), None)
+        emit_frame(ops, sim, w, fr)
+        y = r.random()
+        if y < 0.03 and sim.st[w]["chunks"] and not sim.st[w]["pend"]:
+            n = sum(sim.st[w]["chunks"])
+            ops.append("read %d %d" % (w, n))
+            sim.read(w, n)
+        elif y < 0.06 and sim.ping_out:
+            ops.append("pingack")
+            sim.pingack()
+    for w in [w for w in sim.st if sim.alive(w)]:
+        s = sim.st[w]
+        if s["chunks"] and not s["pend"]:
+            n = sum(s["chunks"])
+            ops.append("read %d %d" % (w, n))
+            sim.read(w, n)
+    return Case(comp, ops, "padding-%s-%d" % (style, idx))
+
+
+def conn_walk_case(rng, idx, comp="s_inflowconn"):
     """random walk: several streams, frames within the windows, reads of all sizes (some blocking, some
     larger than the window), BDP rounds, stream ends, at most one queued NewStream at a time"""
     r = rng
-    k = r.choice([1, 2, 4, 100])
+    k = r.choice([1, 2, 4, 100]) if comp == "s_inflowconn" else 100
     sim = ConnSim(k)
     ops = ["conn %d" % k]
     nxt = 1
@@ -548,7 +604,7 @@ def conn_walk_case(rng, idx):
             if not sim.st[w]["pend"]:
                 ops.append("sclose %d" % w)
                 sim.kill(w)
-    return Case("s_inflowconn", ops, "walk-%d-k%d" % (idx, k))
+    return Case(comp, ops, "walk-%d-k%d" % (idx, k))
 
 
 def conn_fixed_cases():
@@ -562,7 +618,13 @@ def conn_fixed_cases():
     # a read four times the window while data keeps coming
     out.append(["conn 100", "new 1", "read 1 262140", "sdata 1 16384 -", "sdata 1 16000 100", "sdata 1 16384 -", "sdata 1 16384 -",
                 "sdata 1 16384 -"])
-    return [Case("s_inflowconn", o, "connfixed-%d" % i) for i, o in enumerate(out)]
+    res = [Case("s_inflowconn", o, "connfixed-%d" % i) for i, o in enumerate(out)]
+    # the server side: window, one byte more; padded frames with and without payload; a read 4x the window
+    srv = [["conn 100", "new 1", "sdata 1 16384 -", "sdata 1 16384 -", "sdata 1 16384 -", "sdata 1 16383 -", "sdata 1 1 -"],
+           ["conn 100", "new 1", "new 2", "sdata 1 0 255", "sdata 1 0 0", "sdata 2 1 255", "sdata 1 100 10", "read 1 100", "read 2 1",
+            "sclose 2", "sdata 1 16384 -"],
+           out[2]]
+    return res + [Case("s_inflowsrv", o, "srvfixed-%d" % i) for i, o in enumerate(srv)]
 
 
 def fixed_cases():
@@ -591,7 +653,15 @@ def gen(rng, tier):
     for c in conn_fixed_cases():
         yield c
     for i in range(nconn):
-        yield queued_case(rng, i) if i % 2 == 0 else conn_walk_case(rng, i)
+        m = i % 6
+        if m in (0, 3):
+            yield queued_case(rng, i)
+        elif m == 1:
+            yield conn_walk_case(rng, i)
+        elif m == 4:
+            yield conn_walk_case(rng, i, "s_inflowsrv")
+        else:
+            yield padding_case(rng, i, "s_inflowconn" if m == 2 else "s_inflowsrv")
     for i in range(n):
         m = i % 10
         if m < 5:
@@ -608,6 +678,6 @@ def gen(rng, tier):
 
 def nontrivial(case, impl_lines):
     # some window update was actually emitted or some frame was judged
-    if case.component == "s_inflowconn":
+    if case.component.startswith("s_inflow"):
         return any("ev=" in l and ("W" in l.split(" | ")[0] or "R" in l.split(" | ")[0]) for l in impl_lines)
     return any((l.split(" ")[0].isdigit() and l.split(" ")[0] != "0") or l.startswith("err") for l in impl_lines)
